@@ -92,6 +92,8 @@ MUTANTS = [
     m("c04-periodic-substring-test", ["C04", "C05"], F, "periodic = (\n            self.mesh.bc not in (\"neumann\", \"dirichlet\") and direction in self.mesh.bc\n        )",
       "periodic = direction in self.mesh.bc"),   # AF26 before its repair
     m("c04-periodic-one-name-excluded", ["C04"], F, "self.mesh.bc not in (\"neumann\", \"dirichlet\") and direction in self.mesh.bc", "self.mesh.bc != \"neumann\" and direction in self.mesh.bc"),
+    m("schema-array2tuple-condition-negated", ["C01", "C13"], "discretisedfield/util/util.py", "if array.size == 1 else", "if array.size != 1 else"),
+    m("schema-array2tuple-two-coordinates", ["C01"], "discretisedfield/util/util.py", "if array.size == 1 else", "if array.size == 2 else"),
     m("c13-translate-complex-elements", ["C13"], R, "            if not isinstance(elem, numbers.Real):\n                raise TypeError(\n                    f\"Unsupported element {elem} of type {type(elem)} for translate.\"",
       "            if not isinstance(elem, numbers.Number):\n                raise TypeError(\n                    f\"Unsupported element {elem} of type {type(elem)} for translate.\""),   # AF25 before its repair
     m("c13-scale-complex-elements", ["C13"], R, "                if not isinstance(elem, numbers.Real):\n                    raise TypeError(\n                        f\"Unsupported element {elem} of type {type(elem)} for scale.\"",
